@@ -76,11 +76,15 @@ int bind(int fd, const struct sockaddr *sa, socklen_t len)
 #endif
     return 0;
 }
+static bool g_attempt_on[2];          /* [0] IPv4 socket, [1] IPv6 socket: an attempt was made and not dissolved */
 int connect(int fd, const struct sockaddr *sa, socklen_t len)
 {
     (void)len;
-    if (sa->sa_family == AF_UNSPEC) { g_abort_calls++; return 0; }
+    if (sa->sa_family == AF_UNSPEC) { g_abort_calls++; if (fd == FD4) g_attempt_on[0] = false; else if (fd == FD6) g_attempt_on[1] = false; return 0; }
     CHECK(fd == FD4 || fd == FD6, "C08: connect on one of tconnect's own sockets");
+    /* KERNEL-STREAM: a TCP socket whose previous connect is pending, timed out or was refused answers the next connect() with
+       EALREADY/ECONNABORTED unless it was dissolved first (connect to AF_UNSPEC): the address would never really be tried */
+    CHECK(!g_attempt_on[fd == FD4 ? 0 : 1], "C13: a socket is reset (connect AF_UNSPEC) after a pending, timed-out or failed attempt before the next address is tried on it");
     CHECK(sa == g_sa_ptr[1], "harness: connect target built by tp_ip_to_sockaddr");
     int idx = g_sa_idx;
     CHECK(idx >= 0 && idx < NIPS, "C13: connect target is one of the resolver's addresses");
@@ -89,8 +93,8 @@ int connect(int fd, const struct sockaddr *sa, socklen_t len)
     g_connect_idx[g_connect_calls] = idx; g_connect_fd[g_connect_calls] = fd; g_bind_before_connect[g_connect_calls] = g_bound_since_last_connect; g_bound_since_last_connect = false;
     int m = (int)nd_range(0, 2);
     int r = 0;
-    if (m == 1) { errno = EINPROGRESS; r = -1; }
-    else if (m == 2) { errno = nd_conn_errno(); g_last_failure_errno = errno; g_any_attempt_failed = true; r = -1; }
+    if (m == 1) { errno = EINPROGRESS; r = -1; g_attempt_on[fd == FD4 ? 0 : 1] = true; }
+    else if (m == 2) { errno = nd_conn_errno(); g_last_failure_errno = errno; g_any_attempt_failed = true; r = -1; g_attempt_on[fd == FD4 ? 0 : 1] = true; }
     g_connect_result[g_connect_calls] = m;
     g_connect_calls++;
     return r;
@@ -186,6 +190,7 @@ static void build_track(struct track *t, int k, int fd4, int fd6, int n)
 	t->fd_reg_id = xpoll_fd_reg_add(t->xpoll, track_get_current_fd(t), EPOLLOUT);
 	t->timer_id = timer_mgr_schedule(t->timer_mgr, t->tcp_connect_timeout);
 	t->badness_reason = nd_bool() ? 0 : nd_conn_errno();       /* an earlier address may have failed */
+	g_attempt_on[track_get_current_fd(t) == FD4 ? 0 : 1] = true;    /* the pending attempt */
 	break;
     case track_state_connected:
 	ASSUME(t->ip_idx >= 0 && track_supports_family(t, ips[t->ip_idx].family));
